@@ -34,6 +34,7 @@ class RefPG:
 
     def __init__(self):
         self.g = {}
+        self.xl = []      # cross-graph links left by merge_nodes: [(g, n), (h, y), props]
 
     def graph(self, g):
         return self.g.setdefault(g, {'nodes': [], 'links': []})
@@ -53,22 +54,39 @@ class RefPG:
         return None
 
     def scope(self, op):
+        """operations the reference model gives no meaning to: rewriting GraphID / NodeID through the update paths"""
+        if op[0] == 'merge':
+            if op[1] == op[3] or (op[4] and any(p in op[4] for p in ('GraphID', 'NodeID'))):
+                raise OutOfScope('merge of a graph with itself / policy on identity')
+            return
+        if sc.writes_key(op, 'GraphID') or sc.writes_key(op, 'NodeID'):
+            raise OutOfScope('identity rewriting')
+
+    def live(self, g):
+        return len(self.graph(g)['nodes']) > 0
+
+    def deviation(self, op):
+        """where the one-graph-per-id backend is known to deviate from the reference (findings C05 / C04)"""
         k = op[0]
-        if k == 'merge' or sc.writes_key(op, 'GraphID') or sc.writes_key(op, 'NodeID'):
-            raise OutOfScope('identity rewriting / merge')
-        live = lambda g: len(self.graph(g)['nodes']) > 0
-        if k == 'import' and live(op[1]):
-            raise OutOfScope('reimport-live')
-        if k == 'clone' and not live(op[1]):
-            raise OutOfScope('clone-absent-source')
-        if k == 'clone' and live(op[2]):
-            raise OutOfScope('reimport-live')
+        if k == 'import' and self.live(op[1]):
+            return 'reimport-live'
+        if k == 'clone' and not self.live(op[1]):
+            return 'clone-absent-source'
+        if k == 'clone' and self.live(op[2]):
+            return 'reimport-live'
+        return None
+
+    def drop_xlinks(self, pred):
+        self.xl = [l for l in self.xl if not pred(l)]
 
     def step(self, op):
         """-> result (canonical rval) or raises Raised"""
         k, g = op[0], op[1]
         G = self.graph(g)
+        if k == 'merge':
+            return self.merge(op)
         if k in ('import', 'import_direct'):
+            self.drop_xlinks(lambda l: g in (l[0][0], l[1][0]))
             nodes = []
             for key, d in op[2]:
                 d = dict(d)
@@ -82,11 +100,19 @@ class RefPG:
             self.g[g] = {'nodes': nodes, 'links': [[nid[a], nid[b], dict(d)] for a, b, d in op[3]]}
             return ['unit']
         if k == 'del_graph':
+            self.drop_xlinks(lambda l: g in (l[0][0], l[1][0]))
             self.g[g] = {'nodes': [], 'links': []}
             return ['unit']
         if k == 'clone':
+            if not G['nodes']:
+                raise Raised('no such graph')
+            self.drop_xlinks(lambda l: op[2] in (l[0][0], l[1][0]))
+            if any(not d.get('NodeID') for d in G['nodes']):
+                self.g[op[2]] = {'nodes': [], 'links': []}
+                raise Raised('import')
             nodes = [dict(d, GraphID=op[2]) for d in G['nodes']]
-            self.g[op[2]] = {'nodes': nodes, 'links': copy.deepcopy(G['links'])}
+            links = copy.deepcopy(G['links'])
+            self.g[op[2]] = {'nodes': nodes, 'links': links}
             return ['unit']
         if k == 'add_node':
             if any(d.get('NodeID') == op[2] for d in G['nodes']):
@@ -99,6 +125,7 @@ class RefPG:
             d = self.find(g, op[2])
             G['nodes'] = [x for x in G['nodes'] if x is not d]
             G['links'] = [l for l in G['links'] if op[2] not in (l[0], l[1])]
+            self.drop_xlinks(lambda l: (g, op[2]) in (tuple(l[0]), tuple(l[1])))
             return ['unit']
         if k == 'add_link':
             self.find(g, op[2])
@@ -190,6 +217,55 @@ class RefPG:
             return ['vals', sc.sort_vals([sc.cv(x) for x in mine & other])]
         raise OutOfScope(k)
 
+    def merge(self, op):
+        g, n, g2, pol = op[1], op[2], op[3], op[4]
+        if not self.live(g2):
+            raise Raised('other graph missing')
+        mine, other = self.find(g, n), self.find(g2, n)
+        if pol is None:
+            new = dict(mine)
+        else:
+            new = {}
+            for kk, v in mine.items():
+                p = pol.get(kk)
+                if p is None or p == 'discard':
+                    new[kk] = v
+                elif p == 'overwrite':
+                    if kk not in other:
+                        raise Raised('policy needs a property the other node lacks')
+                    new[kk] = other[kk]
+                elif p == 'combine':
+                    if kk not in other:
+                        raise Raised('policy needs a property the other node lacks')
+                    new[kk] = [v, other[kk]]
+                else:
+                    new[kk] = None
+        G, G2 = self.graph(g), self.graph(g2)
+        inside = [l for l in G2['links'] if n in (l[0], l[1])]
+        G2['nodes'] = [x for x in G2['nodes'] if x is not other]
+        G2['links'] = [l for l in G2['links'] if n not in (l[0], l[1])]
+        u, v = (g, n), (g2, n)
+        crossing = [l for l in self.xl if v in (tuple(l[0]), tuple(l[1]))]
+        self.xl = [l for l in self.xl if v not in (tuple(l[0]), tuple(l[1]))]
+
+        def rehome(far, props):
+            if far[0] == g:
+                if not any({l[0], l[1]} == {n, far[1]} for l in G['links']):
+                    G['links'].append([n, far[1], dict(props)])
+            elif not any({tuple(l[0]), tuple(l[1])} == {u, far} for l in self.xl):
+                self.xl.append([u, far, dict(props)])
+        for a, b, props in inside:
+            y = b if a == n else a
+            rehome(u if y == n else (g2, y), props)
+        for a, b, props in crossing:
+            rehome(tuple(b) if tuple(a) == v else tuple(a), props)
+        for l in G['links']:
+            if n in (l[0], l[1]):
+                l[2].pop('contraction', None)
+        mine.clear()
+        mine.update(new)
+        return ['unit']
+
     def api_views(self):
         out = {}
         for g, G in self.g.items():
@@ -208,7 +284,8 @@ def lock_oracle(ops, obs):
     ssn = sc.snapshots(so, [[], []])
     dsn = sc.snapshots(do, [])
     ref = RefPG()
-    live = True            # three-way comparison still meaningful
+    live_s = live_d = True     # comparison with the reference still meaningful (shared / one-graph-per-id)
+    known = None               # first recorded deviation of the one-graph-per-id backend met
     clean = True           # no identity rewriting / malformed import so far (NodeID uniqueness must hold)
     prev_s = {}
     for i, op in enumerate(ops):
@@ -260,34 +337,39 @@ def lock_oracle(ops, obs):
             if why:
                 return 'merge: step %d %s' % (i, why)
         prev_s = cur_s
-        # ---- three-way agreement
-        if live:
+        # ---- agreement with the reference: shared backend as long as the history stays in the reference's scope
+        # (merges included), one-graph-per-id backend until a merge (unsupported there) or a known deviation
+        if live_s:
             try:
                 ref.scope(op)
-                try:
-                    want = ['ok', ref.step(op)]
-                except Raised:
-                    want = ['err']
-                bad = None
-                for name, r in (('shared', rs), ('disjoint', rd)):
-                    if r[0] != want[0] or (r[0] == 'ok' and r[1] != want[1]):
-                        bad = 'agree: step %d %s: %s backend %s, reference %s' % (
-                            i, k, name, json.dumps(r[:2] if r[0] == 'ok' else r[2]), json.dumps(want))
-                        break
-                if bad is None:
-                    rv = ref.api_views()
-                    for name, vw in (('shared', vs), ('disjoint', vd)):
-                        av = {g: sc.api_view(v) for g, v in vw.items()}
-                        if av != rv:
-                            bad = 'agree: step %d %s: content of %s backend differs from the reference' % (i, k, name)
-                            break
-                if bad:
-                    return bad
             except OutOfScope:
-                # merge / identity rewriting, or a storage operation on which the two flavours are documented to
-                # differ (import / clone onto a live id, clone of a graph without nodes): outside C05's quantifier;
-                # the three-way comparison stops here, the per-backend checks go on
-                live = False
+                live_s = live_d = False
+        if live_s:
+            dev = ref.deviation(op) if live_d else None
+            try:
+                want = ['ok', ref.step(op)]
+            except Raised:
+                want = ['err']
+            rv = ref.api_views()
+            backends = [('shared', rs, vs)] + ([('disjoint', rd, vd)] if live_d and k != 'merge' else [])
+            if k == 'merge':
+                if rd[0] != 'err' or rd[1] != 'ERuntime':
+                    return 'agree: step %d merge_nodes on the one-graph-per-id backend did not raise RuntimeError' % i
+                live_d = False
+            for name, r, vw in backends:
+                bad = None
+                if r[0] != want[0] or (r[0] == 'ok' and r[1] != want[1]):
+                    bad = 'step %d %s: %s backend %s, reference %s' % (
+                        i, k, name, json.dumps(r[:2] if r[0] == 'ok' else r[2]), json.dumps(want))
+                elif {g: sc.api_view(v) for g, v in vw.items()} != rv:
+                    bad = 'step %d %s: content of %s backend differs from the reference' % (i, k, name)
+                if bad:
+                    if name == 'disjoint' and dev:
+                        known = known or 'backends-differ:%s: %s' % (dev, bad)
+                        live_d = False
+                    else:
+                        return 'agree: ' + bad
+    return known
     return None
 
 
@@ -546,6 +628,24 @@ class C05(Check):
         'merge_nodes; histories are compared three ways up to the first such operation, the storage models are compared '
         'with their implementations on the whole history',
     ]
+
+
+    def refuted_witnesses(self):
+        def run(ops, expect_tag):
+            def f():
+                obs = {'shared': sc.run_history('shared', ops), 'disjoint': sc.run_history('disjoint', ops)}
+                why = lock_oracle(ops, obs)
+                return (bool(why) and expect_tag in why, {'ops': ops, 'oracle': why,
+                                                           'shared': [o['r'] for o in obs['shared']],
+                                                           'disjoint': [o['r'] for o in obs['disjoint']]})
+            return f
+        return [
+            ('C05_agree_reimport_live_refuted',
+             run([['add_node', 'g0', 'n0', 'c0', None],
+                  ['import', 'g0', [[1, {'NodeID': 'n1', 'Class': 'c0'}]], []], ['list_ids', 'g0']], 'reimport-live')),
+            ('C05_agree_clone_absent_source_refuted',
+             run([['clone', 'g0', 'g1']], 'clone-absent-source')),
+        ]
 
 
 if __name__ == '__main__':
